@@ -296,6 +296,31 @@ fn main() {
             c.finalize().expect("finalize");
             println!("written {}", out.display());
         }
+        "gentop" => {
+            // a small multi-pack container for the loom top-level engine (C07 engine B2): NoConcat
+            // (manifest, directory and 3 content packs in 5 files), with the contents it must yield
+            let dir = PathBuf::from(args.opt("--dir").expect("--dir"));
+            std::fs::create_dir_all(&dir).unwrap();
+            let comp = Comp::parse(&args.opt("--comp").unwrap_or_else(|| "None".into()));
+            let l = shape("tiny3");
+            let c = create_logical(&l, comp, Packaging::NoConcat, &dir, "c").expect("create");
+            let mut contents = vec![];
+            let mut all: Vec<(u16, &Vec<Item>)> = vec![(1, &l.contents)];
+            for (k, e) in l.extra_packs.iter().enumerate() {
+                all.push(((k + 2) as u16, e));
+            }
+            for (p, items) in all {
+                for (i, it) in items.iter().enumerate() {
+                    contents.push(json!({"pack": p, "idx": i, "hex": jbkmc::hex(&it.bytes()), "compressed": it.hint == Hint::Yes && comp != Comp::None}));
+                }
+            }
+            let idx = &l.dir.indexes[0];
+            let expect = json!({"entry": c.path.file_name().unwrap().to_string_lossy(), "contents": contents,
+                "index": idx.name, "index_count": idx.count,
+                "files": c.files.iter().map(|f| f.file_name().unwrap().to_string_lossy().to_string()).collect::<Vec<_>>()});
+            std::fs::write(dir.join("expect.json"), expect.to_string()).unwrap();
+            println!("written {}", dir.display());
+        }
         "dump" => {
             // re-dump one container directory with the current reader
             let d = PathBuf::from(&args.rest[0]);
